@@ -202,6 +202,11 @@ func ruleSeqhash(c *Ctx, prop string) {
 				if n := calleeName(x); !strings.HasPrefix(n, "strings.") && !strings.HasPrefix(n, "builtin:") {
 					typeEvaluable = false
 				}
+			case *ssa.Lookup:
+				// the mode selects a row of a table (rules per type): what the row says is not evaluated
+				if x.Index == ssa.Value(par) {
+					typeEvaluable = false
+				}
 			}
 		}
 	}
@@ -389,7 +394,7 @@ func ruleSeqhash(c *Ctx, prop string) {
 		why := ""
 		if mt.over != x {
 			st = unknown
-			if len(opaqueParts(parseOrNil(mt.over), vocabOf(x))) == 0 {
+			if len(opaqueParts(parseOrNil(mt.over), vocabOf(x))) == 0 && typeEvaluable {
 				st, why = broken, "the letters checked are those of "+short(mt.over)+"; the string that is hashed is "+x+": a letter can be validated in one spelling and hashed in another"
 			} else {
 				why = "letters checked are those of " + short(mt.over)
